@@ -67,6 +67,13 @@ def shapes(src, cm=None):
     local_shapes = dict(SHAPES)
     for label, order in (("preset-keywords-ascending", kws), ("preset-keywords-descending", kws[::-1]), ("preset-first-two", kws[:2]), ("preset-last-two-reversed", kws[-2:][::-1])) if len(kws) >= 2 else ():
         local_shapes[label] = [f"{k}=False" for k in order]
+    # ... and with the other values of the codemod's documented vocabulary (a value the codemod accepts as it is next to one it must change)
+    rxc = VOCAB.get(cm, {}).get("const") if cm else None
+    consts = [c for c in (rxc.pattern[4:-2].split("|") if rxc else []) if c not in ("True", "False")]
+    if len(kws) >= 2:
+        for c in consts[:4]:
+            c_ = c.replace("\\", "")
+            if re.fullmatch(r"'[\w ]*'|None|\d+", c_): local_shapes[f"preset-first-unsafe+last-{c_.strip(chr(39))}"] = [f"{kws[0]}=False", f"{kws[-1]}={c_}"]
     try: tree = ast.parse(src)
     except SyntaxError: return out
     lines = src.splitlines(keepends=True)
